@@ -101,6 +101,10 @@ def writeOk (pre post : Layer) (op : Op) (out : Out) : Bool :=
       (match pre.toml, post.toml with
         | some (.doc t _), some (.doc t' m') => t' == t && m' == some m
         | _, _ => false)
+  -- a metadata write that is rejected because the value cannot be encoded leaves the layer exactly as it was: in
+  -- particular the file keeps declaring the requested flags and the metadata it held
+  | .wmetaBad _, .ok => false
+  | .wmetaBad _, _ => layerEq post pre
   | .wsbom _ sb, .ok => Dir.optBeq post.dir pre.dir && post.dir.isSome && post.toml == pre.toml && post.sboms == sb
   | _, _ => true
 
